@@ -396,6 +396,66 @@ impl Prop for Binaries {
     }
 }
 
+/// Raw text (fuzz artifacts, corpus files): whatever parses converts losslessly.
+#[derive(Debug, Clone, PartialEq, Eq, Hash, Serialize, Deserialize)]
+pub struct RawText {
+    pub text: String,
+}
+
+pub struct Raw;
+
+impl Prop for Raw {
+    type Case = RawText;
+    fn name(&self) -> &'static str {
+        "raw-text"
+    }
+    fn tape_len(&self) -> usize {
+        300
+    }
+    fn cases(&self, tier: Tier) -> u64 {
+        tier.pick(20_000, 500_000)
+    }
+    fn generate(&self, g: &mut Gen) -> RawText {
+        // a valid file with a few characters damaged
+        let mut chars: Vec<char> = gen_case(g).text().chars().collect();
+        for _ in 0..g.below(3) {
+            if chars.is_empty() {
+                break;
+            }
+            let i = g.below(chars.len());
+            match g.below(3) {
+                0 => {
+                    chars.remove(i);
+                }
+                1 => chars.insert(i, g.pick(&['#', ' ', '.', ':', '%', '\t', 'x', '1'])),
+                _ => chars[i] = g.pick(&['#', ' ', '.', ':', '%', '0', 'G']),
+            }
+        }
+        RawText { text: chars.into_iter().collect() }
+    }
+    fn check(&self, c: &RawText) -> Outcome {
+        match Hosts::deserialise(&c.text) {
+            Err(_) => Outcome::pass(false).class("rejected"),
+            Ok(h) => {
+                let out = Outcome::pass(!h.v4.is_empty() || !h.v6.is_empty()).class("parsed");
+                match check_conversions(&h) {
+                    Ok(()) => out,
+                    Err((s, d)) => out.fail(s, d),
+                }
+            }
+        }
+    }
+}
+
+pub fn classify_text(b: &[u8]) -> Option<(String, String, &'static str, serde_json::Value)> {
+    let text = std::str::from_utf8(b).ok()?;
+    let h = Hosts::deserialise(text).ok()?;
+    match check_conversions(&h) {
+        Ok(()) => None,
+        Err((s, d)) => Some((s, d, "raw-text", serde_json::json!({ "text": text }))),
+    }
+}
+
 pub fn def() -> PropertyDef {
     PropertyDef {
         id: "C14",
@@ -405,7 +465,13 @@ pub fn def() -> PropertyDef {
             "an address-only line with a malformed address is unspecified: not generated",
             "CR before LF counts as a blank",
         ],
-        parts: vec![Box::new(Files), Box::new(Binaries)],
+        parts: vec![
+            Box::new(crate::fuzzrun::CorpusPart { name: "corpus", target: "hosts_roundtrip", classify: classify_text }),
+            Box::new(crate::fuzzrun::FuzzPart { name: "fuzz-hosts_roundtrip", target: "hosts_roundtrip", runs_per_job: 500_000, jobs: 8, max_len: 1_024, classify: classify_text }),
+            Box::new(Files),
+            Box::new(Raw),
+            Box::new(Binaries),
+        ],
         budget_s: |t| t.pick(900, 10_800),
         needs_repo_bins: true,
     }
